@@ -31,3 +31,42 @@ package http
 //@     pure
 //@   callee Inc()
 //@     pure
+
+// out: the offset table handed to sendSplit is built by the ForEach callback -
+// one entry per deliverable event, in order, each event's encoding followed by
+// a newline - plus the end offset.  Table invariant T(n): len(begin) == n,
+// entries nondecreasing and within the buffer.  The callback (a closure with its
+// own contract) takes T(n) to T(n+1); ForEach calls nothing but the callback
+// (its own contract, C19 in package pipeline), so T holds after it.
+
+//@ func (*Plugin).out$1
+//@   requires data != nil && len(data.begin) == eventsCount && eventsCount >= 0
+//@   requires nondecreasing(data.begin) && allrange(data.begin, 0, len(data.outBuf) + 1)
+//@   ensures eventsCount == old(eventsCount) + 1
+//@   ensures len(data.begin) == old(len(data.begin)) + 1
+//@   ensures allrange(data.begin, 0, len(data.outBuf) + 1)
+//@   ensures nondecreasing(data.begin)
+//@   ensures data.begin[eventsCount - 1] == old(len(data.outBuf)) && len(data.outBuf) > old(len(data.outBuf)) && data.outBuf[len(data.outBuf) - 1] == '\n'
+//@   callee Encode(e, buf) (r)
+//@     pure
+//@     ensures len(r) >= len(buf) && !sameblock(r, data.begin)
+
+//@ func (*Plugin).out
+//@   option allow-exit yes
+//@   requires p.config.BatchSize_ >= 0 && p.config.BatchSize_ * p.avgEventSize >= 0
+//@   requires workerData != nil && (isnil(*workerData) || typeis(*workerData, "*github.com/ozontech/file.d/plugin/output/http.data"))
+//@   ghost s0 int
+//@   bind sendSplit sentTo := s0
+//@   assume at "statusCode, err = p.sendSplit(0, eventsCount, data.begin, data.outBuf)" s0 == data.begin[0]
+//@   callee ForEach(cb)
+//@     requires data != nil && len(data.begin) == 0 && eventsCount == 0 && len(data.outBuf) == 0
+//@     ensures data != nil && len(data.begin) == eventsCount && eventsCount >= 0
+//@     ensures nondecreasing(data.begin) && allrange(data.begin, 0, len(data.outBuf) + 1)
+//@   callee send(d)
+//@     pure
+//@   callee WithLabelValues(l)
+//@     pure
+//@   callee Inc()
+//@     pure
+//@   callee Error(m, f)
+//@     pure
